@@ -316,3 +316,163 @@ R("check-replay-helper", ["C05", "C04"],
 			loginfo""", """		seen := app.VerifyCache(msg.Tx)
 		if seen == true {
 			loginfo"""))
+
+# ------------------------------------------------------------------ C09
+ST = "storage/state.go"
+SC = "storage/session_cache.go"
+M("tombstone-fix-reverted-get", "C09", "C09.tombstone",
+  (ST, """			if isTombstone(result) {
+				// deleted in this session: reads as absent, like a missing key in the tree
+				return nil, nil
+			}
+""", ""))
+M("tombstone-fix-reverted-exists", "C09", "C09.tombstone",
+  (ST, """	value, _ := s.rawCache().Get(key)
+	return !isTombstone(value)
+}""", """	return exist
+}"""))
+M("get-cache-before-session", "C09", "C09.order.session-first",
+  (ST, """func (s *State) Get(key StoreKey) ([]byte, error) {
+	if s.txSession != nil {""", """func (s *State) Get(key StoreKey) ([]byte, error) {
+	if v, err := s.cache.Get(key); err == nil && !isTombstone(v) {
+		return v, nil
+	}
+	if s.txSession != nil {"""))
+M("exists-tree-despite-cache-entry", "C09", "C09.order.cache-first",
+  (ST, """	exist := s.cache.Exists(key)
+	if !exist {
+		// if not existed in cache, check ChainState
+		return s.cs.Exists(key)
+	}
+""", """	exist := s.cache.Exists(key)
+	if !exist || s.cs.Exists(key) {
+		// if not existed in cache, check ChainState
+		return s.cs.Exists(key)
+	}
+"""))
+M("write-stores-tombstone", "C09", "C09.write",
+  (ST, """		if bytes.Equal(value, []byte(TOMBSTONE)) {
+			_, _ = s.cs.Delete(key)
+		} else {
+			_ = s.cs.Set(key, value)
+		}""", """		if bytes.Equal(value, []byte(TOMBSTONE)) && s.cs.Exists(key) {
+			_, _ = s.cs.Delete(key)
+		} else {
+			_ = s.cs.Set(key, value)
+		}"""))
+M("commit-keeps-cache", "C09", "C09.commit.fresh-cache",
+  (ST, """	s.Write()
+	s.cache = NewSessionedDirectStorage(SESSION_CACHE, "state")
+	s.txSession = nil
+""", """	s.Write()
+	s.txSession = nil
+"""))
+M("session-commit-ranges-map", "C09", "C09.replay.ordered",
+  (SC, """	for _, k := range c.keys {
+		v, ok := c.store[k]
+		if !ok {
+			continue
+		}
+		err = c.parent.Set(StoreKey(k), v)
+		if err != nil {
+			return false
+		}
+	}""", """	for k, v := range c.store {
+		err = c.parent.Set(StoreKey(k), v)
+		if err != nil {
+			return false
+		}
+	}"""))
+M("cache-iterate-skips-empty", "C09", "C09.replay.complete",
+  (SC, """		v, ok := c.store[k]
+		if !ok {
+			continue
+		}
+		if fn([]byte(k), v) {
+			return true
+		}""", """		v, ok := c.store[k]
+		if !ok || len(v) == 0 {
+			continue
+		}
+		if fn([]byte(k), v) {
+			return true
+		}"""))
+M("session-set-no-key-on-overwrite", "C09", "C09.overlay.keys",
+  (SC, """func (c *cacheSession) Set(key StoreKey, dat []byte) error {
+
+	c.store[string(key)] = dat
+	if d, ok := c.done[string(key)]; !ok || !d {""", """func (c *cacheSession) Set(key StoreKey, dat []byte) error {
+
+	c.store[string(key)] = dat
+	if d, ok := c.done[string(key)]; !ok && !d && len(dat) > 0 {"""))
+M("discard-commits", "C09", "C09.discard",
+  (ST, """func (s *State) DiscardTxSession() {
+	s.txSession = nil""", """func (s *State) DiscardTxSession() {
+	if s.txSession != nil && s.gc.IsEnough() {
+		s.txSession.Commit()
+	}
+	s.txSession = nil"""))
+M("exists-populates-cache", "C09", "C09.purity",
+  (ST, """	if !exist {
+		// if not existed in cache, check ChainState
+		return s.cs.Exists(key)
+	}
+""", """	if !exist {
+		// if not existed in cache, check ChainState
+		found := s.cs.Exists(key)
+		if found {
+			if v, err := s.cs.Get(key); err == nil {
+				_ = s.rawCache().Set(key, v)
+			}
+		}
+		return found
+	}
+"""))
+M("handler-deletes-tree-version", "C09", "C09.versions.who",
+  ("storage/chainstate.go", """func (state *ChainState) LoadVersion(version int64) (int64, error) {
+	return state.Delivered.LoadVersion(version)""", """func (state *ChainState) LoadVersion(version int64) (int64, error) {
+	if version > 1 {
+		_ = state.Delivered.DeleteVersion(version - 1)
+	}
+	return state.Delivered.LoadVersion(version)"""))
+R("state-get-restructured", ["C09", "C06"],
+  (ST, """	// Get the cache first
+	result, err := s.cache.Get(key)
+	if err == nil {
+		if isTombstone(result) {
+			// deleted in this block: reads as absent, like a missing key in the tree
+			return nil, nil
+		}
+		// if got result, return directly
+		return result, err
+	}
+
+	// if didn't get result in cache, get from ChainState
+	return s.cs.Get(key)""", """	result, err := s.cache.Get(key)
+	switch {
+	case err != nil:
+		return s.cs.Get(key)
+	case bytes.Equal(result, []byte(TOMBSTONE)):
+		return nil, nil
+	}
+	return result, nil"""))
+R("session-delete-via-helper", ["C09"],
+  (SC, """func (c *cacheSession) Delete(key StoreKey) (bool, error) {
+
+	tombstoneBytes := []byte(TOMBSTONE)
+	c.store[string(key)] = tombstoneBytes
+	if d, ok := c.done[string(key)]; !ok || !d {
+		c.keys = append(c.keys, string(key))
+		c.done[string(key)] = true
+	}
+	return true, nil
+}""", """func (c *cacheSession) Delete(key StoreKey) (bool, error) {
+	k := string(key)
+	c.store[k] = []byte(TOMBSTONE)
+	if c.done[k] {
+		return true, nil
+	}
+	c.keys = append(c.keys, k)
+	c.done[k] = true
+	return true, nil
+}"""))
